@@ -271,6 +271,48 @@ func MarshalHistories(r *ev.Run, prefix string) {
 	rec()
 	r.Set("marshal_history_initial_results", initial)
 	sharedOrderArrays(r, prefix)
+	longOrderDuplicates(r, prefix)
+}
+
+// longOrderDuplicates: PropertyOrder lists of 8..12 names over as many properties, with exactly one
+// name listed twice - every name in turn, the second occurrence at every position: Marshal must
+// refuse each of them (also one level down), and accept the list without the duplicate.
+func longOrderDuplicates(r *ev.Run, prefix string) {
+	n := 0
+	for size := 8; size <= 12; size++ {
+		names := make([]string, size)
+		props := map[string]*jsonschema.Schema{}
+		for i := range names {
+			names[i] = fmt.Sprintf("p%02d", (i*7)%size) // not in sorted order
+			props[names[i]] = &jsonschema.Schema{Type: "integer"}
+		}
+		ok := &jsonschema.Schema{Type: "object", Properties: props, PropertyOrder: append([]string(nil), names...)}
+		if _, err := json.Marshal(ok); err != nil {
+			r.Fail(fmt.Sprintf("%slong order without duplicate, %d names", prefix, size), map[string]any{"class": "refused", "error": err.Error()})
+		}
+		for d := 0; d < size; d++ { // the duplicated name
+			for pos := 0; pos <= size; pos++ { // where its second occurrence is inserted
+				order := append(append(append([]string(nil), names[:pos]...), names[d]), names[pos:]...)
+				for _, nested := range []bool{false, true} {
+					s := &jsonschema.Schema{Type: "object", Properties: props, PropertyOrder: order}
+					if nested {
+						s = &jsonschema.Schema{Properties: map[string]*jsonschema.Schema{"in": s}}
+					}
+					key := fmt.Sprintf("%slong order (%d names) lists %q twice, second occurrence at %d, nested=%v", prefix, size, names[d], pos, nested)
+					if r.OnlyKey != "" && r.OnlyKey != key {
+						continue
+					}
+					n++
+					if b, err := json.Marshal(s); err == nil {
+						r.Fail(key, map[string]any{"class": "duplicate in PropertyOrder accepted", "output": string(b)})
+					}
+				}
+			}
+		}
+	}
+	r.Eval(n)
+	r.NontrivialN(n)
+	r.Set("long_order_duplicate_cases", n)
 }
 
 // sharedOrderArrays: PropertyOrder lists of several live schemas that are prefixes of ONE backing
